@@ -7,6 +7,8 @@ SCOPES = {
     "E1": dict(MaxT=2, MaxU=1, MaxI=1, shards=8),      # 16 681 configurations
     "E1b": dict(MaxT=2, MaxU=2, MaxI=1, shards=12),    # adds two-uses chains (cycles via uses)
     "E2": dict(MaxT=3, MaxU=2, MaxI=1, shards=16),     # 1 302 000 configurations
+    "N3": dict(MaxT=3, MaxU=1, MaxI=1, shards=2, chain=True),   # three nesting levels a, a/a, a/a/a: 1 600 configurations
+    "N3b": dict(MaxT=3, MaxU=2, MaxI=1, shards=8, chain=True),  # ... with two uses entries: 31 240 configurations
 }
 
 WHY_CLASS = {
@@ -24,9 +26,10 @@ KINDS = {"C01": "analyze", "C10": "edges", "C03": "groups", "C09": "groups"}
 def targets_cfg(scope, shard, emit=True, laws=True):
     s = SCOPES[scope]
     inv = " ".join((["Laws"] if laws else []) + ["Emit"])
-    return ("CONSTANTS MaxT = %d\n MaxU = %d\n MaxI = %d\n Shard = %d\n NShards = %d\n EmitCases = %s\n"
+    return ("CONSTANTS MaxT = %d\n MaxU = %d\n MaxI = %d\n Shard = %d\n NShards = %d\n EmitCases = %s\n Chain = %s\n"
             "SPECIFICATION Spec\nINVARIANTS %s\nCHECK_DEADLOCK FALSE\n"
-            % (s["MaxT"], s["MaxU"], s["MaxI"], shard, s["shards"], "TRUE" if emit else "FALSE", inv))
+            % (s["MaxT"], s["MaxU"], s["MaxI"], shard, s["shards"], "TRUE" if emit else "FALSE",
+               "TRUE" if s.get("chain") else "FALSE", inv))
 
 
 def mc_targets(chk, scope, laws=True):
@@ -187,12 +190,15 @@ def run(pid, tier):
         # ---- specification level: enumerate, check laws, emit
         scope = "E1" if tier == "quick" else "E1b"
         cases = mc_targets(chk, scope)
+        # plus every configuration over the three-level nesting chain
+        cases += mc_targets(chk, "N3" if tier == "quick" else "N3b")
         cases_path = os.path.join(tmp, "cases.ndjson")
         with open(cases_path, "w") as f:
             for c in cases:
                 f.write(json.dumps(c) + "\n")
         # ---- spec -> impl: every enumerated configuration through the real code
-        rotate = "2" if tier == "quick" else "0"
+        # quick: each configuration under 2 of the 5 naming schemes (1 for the record-heavy grouping checks), rotating
+        rotate = ("1" if kind == "groups" else "2") if tier == "quick" else "0"
         st = vinproc(bins, ["cfgcases", "--cases", cases_path, "--out", os.path.join(tmp, "o1"), "--fixtures",
                             os.path.join(tmp, "fx"), "--kinds", kind, "--threads", str(vlib.NCPU),
                             "--seed", str(chk.seed), "--rotate", rotate])
